@@ -81,6 +81,10 @@ def run(tier):
                 why = "writing the message into a slice one byte too short must fail with BufferTooSmall, got %s" % o.get("short_err")
             elif o["direct"] != o["bytes"]:
                 why = "the handshake-level and message-level serializers disagree"
+            elif "plain_writer" in o and o["plain_writer"] != o["bytes"]:
+                why = "into a writer that implements only `write` the serializer does not produce the same bytes (%s)" % str(o["plain_writer"])[:60]
+            elif "retry" in o and o["retry"] != o["bytes"]:
+                why = "the same serializer value, run again after two attempts into too small buffers, does not produce the same bytes (%s)" % str(o["retry"])[:60]
             elif "per_fn" in o and o["per_fn"] != o["bytes"]:
                 why = "the public per-message serializer (gen_tls_clienthello / _serverhello / _finished / ...) and gen_tls_message emit different bytes for the same value"
             elif kind in ("record", "from_bytes") and o["hdr"]["len"] != len(o["bytes"]) - 5:
